@@ -389,6 +389,15 @@ def p6(ctx):
         dv = mir.inline_view(crate, d, keep=tuple({c.callee.name for c in var}))
         vbb = {c.bb for c in dv.calls if c.callee and "variants" in (c.callee.name or "") and not dv.blocks[c.bb]["cleanup"]}
         ok = bool(vbb) and dv.must_pass([0], dv.return_blocks(), vbb)
+        # ... and every variant whose name-free shape equals the node's is examined — the node itself included: the identity
+        # variant is the one that notices "the class has a slot this node lacks" (its a.slots() != b.slots() test shrinks the class)
+        for c_ in dv.calls:
+            if c_.callee and c_.callee.name == "pc_congruence" and not dv.blocks[c_.bb]["cleanup"] and c_.bb not in dv.ghost_blocks()[0]:
+                C.check_only_allowed_skips(ctx, dv, c_.bb, [
+                    ("eq", lambda t, cond: t.count("weak_shape(") >= 2),
+                    ("true", lambda t, cond: t.count("weak_shape(") >= 2),
+                    ("false", lambda t, cond: t.count("weak_shape(") >= 2 and t.startswith("ne(")),
+                ], "deriver-variants:" + C.fkey(d), "examining a group-compatible variant of the node")
         ctx.check(ok, "deriver-unconditional:" + C.fkey(d), "every path through the deriver enumerates the group-compatible variants of the node",
                   "the self-symmetry deriver can return before enumerating the node's group-compatible variants: the deduction 'this variant moves a class slot onto a redundant slot of the node, so the slot is redundant in the class' is skipped on that path, and whether the class shrinks then depends on the order in which the equations were asserted", where_of(d))
 
